@@ -1,7 +1,13 @@
 use crate::decoder;
 
+#[allow(dead_code)]
 pub(super) fn graytobin(message: &[u32]) -> (u32, u32) {
-    if let Some(code) = decoder::ma_code(message) {
+    graytobin_code(decoder::ma_code(message))
+}
+
+/// Gray to binary conversion of a 14-bit working altitude code (as built by `ma_code` / `me_code`).
+pub(super) fn graytobin_code(code: Option<u16>) -> (u32, u32) {
+    if let Some(code) = code {
         let n = (extract_bit(&code, 4) << 10)
             | (extract_bit(&code, 2) << 9)
             | (extract_bit(&code, 12) << 8)
